@@ -27,6 +27,9 @@ def gen(ctx):
     for _ in range(n):
         docs = [G.rand_doc(rng, 3) for _ in range(rng.randrange(2, 5))]
         pool = [G.spell(rng, eg.expr()) for _ in range(4)] + ["a.", "sort_by(@, &a)", "[*].abs(@)", "length(@)", "@", "foo[?bar > `1`].baz | [0]"]
+        # respellings of the same expressions that differ only in insignificant whitespace (a memo keyed on a normalised text would
+        # hand back the tree — and the offsets — of another spelling, depending on what was compiled before)
+        pool += [rng.choice([" ", "  ", "\t", "\n"]) + p for p in rng.sample(pool, 3)] + [p + rng.choice([" ", "\n "]) for p in rng.sample(pool, 2)]
         ops = []
         for _ in range(rng.randrange(5, 26)):
             r = rng.random()
@@ -47,6 +50,7 @@ def run(ctx):
     cases = [ctx.replay["case"]] if getattr(ctx, "replay", None) else gen(ctx)
     impl, model = S.run_both(ctx, "history", cases)
     nsearch = 0
+    seen_compile, seen_search = {}, {}
     for c, i, m in zip(cases, impl, model):
         ctx.evaluations += 1
         parts = (i or "NONE").split("\t")
@@ -63,11 +67,41 @@ def run(ctx):
         if fl.get("fresh") != "ok":
             ctx.violation("history", c, (i or "NONE")[:300], "fresh=ok", "a search result differs from a fresh compile+search of the same text and document")
             continue
+        # implementation alone, across every history of this run (they share processes, hence any hidden state): the same string always
+        # compiles to the same output; the same (string, document) always searches to the same output
+        docs = c.split("\t")[0].split(";")
+        held = {}
+        bad = None
+        for o, out in zip(ops, outs):
+            if o[0] == "c":
+                k, text = o[1:].split(":", 1)
+                held[k] = text if out.startswith("ok") else None
+                prev = seen_compile.setdefault(text, (out, c))
+                if prev[0] != out:
+                    bad = (f"compile of {C.unhexs(text)!r} gave {out[:160]}", f"{prev[0][:160]} (as in another history of this run)")
+            elif o[0] == "l":
+                k, src = o[1:].split(":")
+                held[k] = held.get(src)
+            elif o[0] == "x":
+                held[o[1:]] = None
+            elif o[0] == "s":
+                k, di = o[1:].split(":")
+                if held.get(k) is not None:
+                    key = (held[k], docs[int(di)])
+                    prev = seen_search.setdefault(key, (out, c))
+                    if prev[0] != out:
+                        bad = (f"search of {C.unhexs(held[k])!r} gave {out[:160]}", f"{prev[0][:160]} (as in another history of this run)")
+            if bad:
+                break
+        if bad:
+            ctx.violation("history", c, bad[0], bad[1], "the result of compile/search depends on what ran before")
+            continue
         mo = (m or "NONE").split(" | ")
         ci = [S.canon_eval(x) if x.startswith(("E ", "ok ")) else x for x in outs]
         cm = [S.canon_eval(x) if x.startswith(("E ", "ok ")) else x for x in mo]
-        # compile outputs: compare tree shape only (offsets are C12's), compile errors by class
-        norm = lambda x: "E parse" if x.startswith("E parse") else S.strip_offsets(x)
+        # compile outputs: the whole tree including its offsets (the same string must give the same tree whatever came before);
+        # compile errors by class
+        norm = lambda x: "E parse" if x.startswith("E parse") else x
         if [norm(x) for x in ci] != [norm(x) for x in cm]:
             k = next((j for j, (a, b) in enumerate(zip(ci, cm)) if norm(a) != norm(b)), 0)
             ctx.violation("history", c, f"op {k} ({ops[k] if k < len(ops) else '?'}): {ci[k][:200] if k < len(ci) else '?'}",
